@@ -22,10 +22,20 @@ def pick_kind(kind, spec_text):
     return kind
 
 
-def make_spec(kind, spec_text, vars_, pastify=False, unit=None, period=None, consts=(), subs=(), io=None, f=None, **kw):
+def make_spec(kind, spec_text, vars_, pastify=False, unit=None, period=None, consts=(), subs=(), io=None, f=None, config_after_parse=False, **kw):
     kind = pick_kind(kind, spec_text)
     if f is not None and unit is None and period is None:
         period, unit = refsem.cfg(f)           # notation cases of vf/pool.py carry their sampling period and default unit
+    if config_after_parse:
+        # the default unit and the sampling period are set AFTER parse() (and before the first evaluation): the order must not matter
+        s = make_spec(kind, spec_text, vars_, consts=consts, subs=subs, io=io, **kw)
+        if unit is not None:
+            s.unit = unit
+        if period is not None:
+            s.set_sampling_period(*period)
+        if pastify:
+            s.pastify()
+        return s
     s = KINDS[kind](**kw)
     for v in vars_:
         s.declare_var(v, 'float')
